@@ -26,9 +26,10 @@ LEVEL = "model_checking"
 TIERS = {
     # main family (slices and T), T-only family on larger owners (Tip), vector family
     "quick": dict(main=dict(MaxR=3, MaxC=3, MaxDepth=2), tip=dict(MaxR=5, MaxC=5, MaxDepth=2),
-                  vec=dict(MaxN=6, MaxDepth=2), export_every=4, minor_every=1, workers=8),
+                  vec=dict(MaxN=6, MaxDepth=2), export_every=4, minor_every=1, workers=8, record=(40, 9, 40)),
     "thorough": dict(main=dict(MaxR=4, MaxC=4, MaxDepth=3), tip=dict(MaxR=6, MaxC=6, MaxDepth=3),
-                     vec=dict(MaxN=8, MaxDepth=3), export_every=16, minor_every=1, workers=12),
+                     vec=dict(MaxN=8, MaxDepth=3), export_every=16, minor_every=5, workers=12,
+                     record=(250, 9, 60)),
 }
 MAJOR = "Float64,Real64,Int,Float32"
 ALL = "Float64,Real64,Int,Float32,Real32,Int8,Int16,Int32,Int64"
@@ -71,11 +72,30 @@ def run_driver(ctx, binary, sub, cases, tag, env=None, timeout=3000):
     return summary
 
 
+def check_trace(ctx, binary, ntr, maxd, maxops, seed, tag):
+    trace = ctx.path("views_trace-%s.ndjson" % tag)
+    ctx.run([binary, "record", trace, str(ntr), str(maxd), str(maxops)], env={"VERIF_SEED": str(seed), "VERIF_TYPES": ALL})
+    clean = trace + ".clean"
+    n = 0
+    with open(clean, "w") as out:
+        for line in open(trace):
+            if '"kind":"mismatch"' in line[:40]:
+                r = json.loads(line)
+                ctx.violation(r["sig"], dict(r["detail"], seed=seed, record=[ntr, maxd, maxops]))
+                continue
+            out.write(line)
+            n += 1
+    ok, bad, why = vlib.validate_trace(ctx, "MatrixViewTrace", "MatrixViewTrace.cfg", "views_trace.ndjson", clean,
+                                       timeout=1800, label="trace-" + tag)
+    return clean, n, ok, bad, why
+
+
 def run(ctx):
     tier = ctx.tier
     T = TIERS[tier]
     ctx.sany("MatrixView")
     ctx.sany("VectorView")
+    ctx.sany("MatrixViewTrace")
     # 1. design findings: the mechanism as found violates the invariants (small bounds)
     found = []
     for inv in ORIG:
@@ -104,7 +124,8 @@ def run(ctx):
         raise vlib.Infra("no cases generated (%d, %d, %d)" % (n_main, n_tip, n_vec))
     # 3. replay on the real code
     binary = ctx.go_build("views")
-    env = {"VERIF_TYPES": ALL, "VERIF_EXPORT_EVERY": str(T["export_every"]), "VERIF_WORKERS": str(T["workers"])}
+    env = {"VERIF_TYPES": ALL, "VERIF_EXPORT_EVERY": str(T["export_every"]), "VERIF_WORKERS": str(T["workers"]),
+           "VERIF_MINOR_EVERY": str(T["minor_every"])}
     s_main = run_driver(ctx, binary, "replay", cases_main, "main", env=env)
     s_tip = run_driver(ctx, binary, "replay", cases_tip, "tip", env=env)
     s_vec = run_driver(ctx, binary, "vectors", cases_vec, "vec", env={"VERIF_TYPES": ALL})
@@ -142,6 +163,39 @@ def run(ctx):
     if not hit:
         raise vlib.Infra("binding self-test failed: a corrupted denotation table was accepted by the driver")
     ctx.extra["binding_selftest"] = "a case with one corrupted expected element is rejected by the driver (At/ConstAt)"
+    # 5b. code -> model: recorded histories on larger owners validated by MatrixViewTrace.tla
+    ntr, maxd, maxops = T["record"]
+    trace, nev, ok, bad, why = check_trace(ctx, binary, ntr, maxd, maxops, ctx.seed, "rec")
+    ctx.log("recorded %d events in %d histories: %s" % (nev, ntr, "accepted" if ok else "REJECTED at %s (%s)" % (bad, why)))
+    if ok:
+        ctx.traces += ntr
+        events = vlib.read_ndjson(trace, limit=400)
+        idx = next((i for i, e in enumerate(events) if i > 30 and e["e"] in ("T", "slice") and len(e["obs"]) > 1
+                    and len(e["obs"][0]) > 1), None)
+        if idx is None:
+            raise vlib.Infra("self-test: no suitable event")
+        events[idx]["obs"][1][0] += 1
+        bad_trace = ctx.path("views_trace-corrupt.ndjson")
+        with open(bad_trace, "w") as f:
+            for e in events:
+                f.write(json.dumps(e) + "\n")
+        ok2, bad2, _ = vlib.validate_trace(ctx, "MatrixViewTrace", "MatrixViewTrace.cfg", "views_trace.ndjson", bad_trace,
+                                           label="selftest-trace")
+        if ok2 or bad2 != idx + 1:
+            raise vlib.Infra("binding self-test failed: corrupted trace accepted=%s at=%s want=%s" % (ok2, bad2, idx + 1))
+        ctx.extra["binding_selftest"] += "; a recorded trace with one corrupted observation is rejected at event %d" % (idx + 1)
+        e0 = dict(events[1])
+        e0["obs"] = "..."
+        e0["par"] = "..."
+        ctx.sample({"recorded_event": e0})
+    else:
+        events = vlib.read_ndjson(trace)
+        e = events[bad - 1] if bad and bad <= len(events) else None
+        ctx.violation({"engine": "views", "storage": (e or {}).get("inst", "?").split("/")[0], "op": "record." + (e or {}).get("e", "?"),
+                       "what": "trace_rejected"},
+                      {"mode": "record", "seed": ctx.seed, "record": [ntr, maxd, maxops], "rejected_at": bad, "reason": why,
+                       "event": e, "preceding": events[max(0, (bad or 1) - 8):(bad or 1) - 1]})
+    ctx.extra["recorded_events"] = nev
     # 6. API surface accounting (information only)
     surf = ctx.path("surface.json")
     ctx.run([binary, "surface", surf])
@@ -161,9 +215,11 @@ def run(ctx):
                            "vector_cases": s_vec["vector_cases"], "vector_instances": s_vec["vector_instances"],
                            "operations": len([k for k in s_main.get("ops", {}) if not k.startswith("copy_panics")])}
     ctx.extra["bounds"] = {"main": T["main"], "tip_family": T["tip"], "vector_family": T["vec"],
+                           "recorded": dict(histories=T["record"][0], max_dim=T["record"][1], max_calls=T["record"][2]),
                            "element_types": ALL.split(","), "storage": ["dense", "sparse"],
                            "value_patterns": ["f (all cells distinct, non-zero)", "z (cells 1,3,4,8,10,15,.. zero)"],
-                           "export_every_nth_instance": T["export_every"]}
+                           "export_every_nth_instance": T["export_every"],
+                           "types_Real32_Int8_Int16_Int32_Int64_on_every_nth_case": T["minor_every"]}
     ctx.assumptions.append("AsVector/AsConstVector: compared as a multiset (matrix.go: 'the order is unspecified')")
     ctx.assumptions.append("iteration: zero elements may or may not be visited; the non-zero elements must come in row-major order of the view")
     ctx.assumptions.append("an operation that panics on the independent deep copy is not a legal operation and is skipped")
@@ -184,7 +240,12 @@ def replay(ctx, path):
     binary = ctx.go_build("views")
     cases = ctx.path("case.ndjson")
     env = {"VERIF_TYPES": d.get("etype", "Float64"), "VERIF_EXPORT_EVERY": "1"}
-    if d.get("mode") == "vectors" or "vcase" in d:
+    if d.get("mode") == "record":
+        ntr, maxd, maxops = d["record"]
+        trace, nev, ok, bad, why = check_trace(ctx, binary, ntr, maxd, maxops, d["seed"], "replay")
+        if not ok:
+            ctx.violation({"engine": "views", "op": "record", "what": "trace_rejected"}, dict(d, rejected_at=bad, reason=why))
+    elif d.get("mode") == "vectors" or "vcase" in d:
         with open(cases, "w") as f:
             f.write(json.dumps(d["vcase"]) + "\n")
         env["VERIF_ONLY_OP"] = d["op"]
@@ -195,3 +256,33 @@ def replay(ctx, path):
         env.update({"VERIF_ONLY_STORAGE": d["storage"], "VERIF_ONLY_PAT": d["pat"], "VERIF_ONLY_OP": d["op"]})
         run_driver(ctx, binary, "replay", cases, "replay", env=env)
     return ctx.finish(rule="replay of one recorded violation", evaluations=1, distinct_nontrivial=1)
+
+
+MANIFEST = {
+    "engine": "views",
+    "spec": "spec/MatrixView.tla",
+    "engine_text": "MatrixView.tla (contract: denotation of a word over Slice/T; mechanism: dense and sparse header arithmetic, "
+                   "iterators, row/column shortcuts, AsVector, Reset, JSON re-pack, Tip), VectorView.tla (vector slices, AsMatrix), "
+                   "MatrixViewTrace.tla (trace validation); Go driver harness/cmd/views",
+    "technique": "TLA+ contract + mechanism model checked by TLC; TLC prints one case per (owner dims, view word) with the "
+                 "denotation tables, replayed on the real dense/sparse matrices of every element type (direct comparison plus "
+                 "operation-on-view = operation-on-deep-copy for every public operation); recorded real histories on larger "
+                 "owners validated by a TLC trace specification",
+    "text": "TLC exhaustively checks that the transcribed header mechanism (index(), SLICE, T, Tip, iterator Ok/next, ConstRow/ConstCol "
+            "shortcuts, AsVector, Reset, MarshalJSON re-pack; sparse variant with re-keying T() and window-clipped iterator) equals the "
+            "denotation for all owners up to 3x3 / 4x4, all slice bounds and all words over Slice/T up to length 2 / 3, and reproduces the "
+            "design findings of the original mechanism. Every reachable (owner, word) is printed with the expected view dimensions, the "
+            "owner cell of every element, rows, columns, diagonal, AsVector elements, iteration sequences and the result of Tip, and is "
+            "replayed on the real code for dense and sparse storage, nine element types and two value patterns: element access, "
+            "Row/Col/Diag/ConstRow/ConstCol, AsVector, iterators, write-through in both directions, copying accessors, Tip, and for "
+            "about 150 public operations (printing, Export/Import, JSON, Equals, Clone, iterators, element-wise and matrix products as "
+            "receiver and operand, MdotV/VdotM, Outer, Set, Reset, SetIdentity, Map/Reduce, swaps and permutations, Jacobian/Hessian, "
+            "Variables/ResetDerivatives, concrete-type twins) the result on the view is compared with the result on an independent "
+            "deep copy built from the printed denotation, including the owner cells outside the view. Seeded random histories "
+            "(Slice/T/writes) on owners up to 9x8 recorded from the real code are accepted by the trace specification. Bounded model "
+            "checking plus conformance; not a proof for unbounded shapes.",
+    "note": "Trusted: TLC, CommunityModules Json/SequencesExt, the Go driver (parent construction through At().SetFloat64, reading through "
+            "ConstAt), Go runtime. AsVector is compared as a multiset, iteration modulo visited zeros. Bounds are echoed in evidence "
+            "(coverage.bounds).",
+    "design_ref": "DESIGN.md section 5 (C10), section 4 (MatrixView), appendix A.9",
+}
